@@ -231,6 +231,34 @@ def h_bindings(E, idx):
     return kind
 
 
+FUNC_POW = ['sin(4)^0.5', 'cos(2)^(1/3)', '(0-cos(1))^0.5', 'ln(0.5)^0.5', 'sin(4)^2', '2^sin(4)', 'sin(4)^-1', 'sqrt(4)^0.5', 'abs(-2)^0.5', 'exp(1)^sin(4)',
+            'sin(4)||cos(2)', '-sin(4)^0.5', 'sin(x)^y', 'tan(2)^1.5', 'arctan(-3)^0.25', 'sin(4)^(1/2)*cos(2)^(1/2)', '(sin(4)*cos(2))^0.5', 'sin(4)/cos(2)^0.5',
+            'sinh(-1)^0.5', 'floor(-1.5)^0.5', 'min(-2,3)^0.5', 're(-4)^0.5', 'conj(-4)^0.5', 'kronecker(1,1)^0.5', '(sin(4)^0.5)^2', 'x^y', 'x^0.5', '(0-y)^x']
+
+
+def h_function_power(E, idx):
+    """values RETURNED by functions (numpy scalars inside the evaluator) flow through the operators like any other number: negative bases with
+    fractional exponents give the principal complex root, never a foreign exception or nan.  Concrete companion (transcendental values are outside the
+    solver's reach): reference values by cmath."""
+    import cmath
+    from mitxgraders.helpers.calc.expressions import evaluator, DEFAULT_FUNCTIONS, DEFAULT_SUFFIXES
+    expr = FUNC_POW[idx]
+    env = {'x': -2.0, 'y': 0.5}
+    got, _ = evaluator(expr, env, DEFAULT_FUNCTIONS, DEFAULT_SUFFIXES)
+    ns = {'sin': lambda z: complex(math.sin(z)), 'cos': lambda z: complex(math.cos(z)), 'tan': lambda z: complex(math.tan(z)), 'ln': lambda z: complex(math.log(z)),
+          'sqrt': cmath.sqrt, 'abs': lambda z: complex(abs(z)), 'exp': lambda z: complex(math.exp(z)), 'arctan': lambda z: complex(math.atan(z)),
+          'sinh': lambda z: complex(math.sinh(z)), 'floor': lambda z: complex(math.floor(z)), 'min': lambda *a: complex(min(a)), 're': lambda z: complex(z.real),
+          'conj': lambda z: complex(z).conjugate() if complex(z).imag != 0 else complex(complex(z).real), 'kronecker': lambda a, b: complex(1 if a == b else 0), 'x': -2.0, 'y': 0.5}
+    py = expr.replace('^', '**')
+    if '||' in py:
+        a, b = py.split('||')
+        want = 1 / (1 / eval(a, ns) + 1 / eval(b, ns))    # noqa
+    else:
+        want = eval(py, ns)       # noqa - Python's ** has the documented precedence and associativity of ^ (tighter than unary minus, right-assoc.)
+    E.check('function-values-flow-through-operators', abs(complex(got) - complex(want)) <= 1e-9 * (1 + abs(want)))
+    return 'ok'
+
+
 def h_undefined(E, name):
     from mitxgraders.helpers.calc.expressions import evaluator, DEFAULT_FUNCTIONS, DEFAULT_SUFFIXES
     from mitxgraders.helpers.calc.exceptions import UndefinedVariable, UndefinedFunction
@@ -537,6 +565,8 @@ def harnesses(tier):
             hs[-1].params = (lit.strip(), suf)
     for form in ('sum', 'constants', 'mixed'):
         add(h_names, 'names', dict(form=form), '10 symbolic variables with confusable names')
+    for i in range(len(FUNC_POW)):
+        add(h_function_power, 'function_power', dict(i=i), FUNC_POW[i], validate=False)
     for i in range(len(_bindings())):
         add(h_bindings, 'bindings', dict(i=i, kind=_bindings()[i][0]), 'value of that numeric type times a symbolic real')
         hs[-1].params = (i,)
